@@ -171,8 +171,9 @@ impl Property for C17 {
     }
     fn strategy(&self, tier: Tier) -> BoxedStrategy<Case> {
         let direct: BoxedStrategy<Case> = {
-        (any::<bool>(), proptest::collection::vec(op(), 1..=tier.pick(25usize, 45usize)))
-            .prop_map(|(start, mut ops)| {
+        (any::<bool>(), proptest::collection::vec(op(), 1..=tier.pick(25usize, 45usize)), crate::engine::repeats())
+            .prop_map(|(start, ops, reps)| {
+                let mut ops = crate::engine::with_repeats(ops, &reps);
                 let mut pre = if start { vec![Op::Add { by: By::Owner, who: 0 }, Op::Add { by: By::Owner, who: 1 }, Op::Add { by: By::Owner, who: 2 }] } else { vec![] };
                 pre.append(&mut ops);
                 Case { ops: pre, sweep: None }
